@@ -84,6 +84,12 @@ DeleteVertsViolWith(s, I, t, m) ==
     \cup V(\A f \in AttrNames : (s.lens[f] = 0) = (t.lens[f] = 0) \/ t.nv = 0, "NoAttributeArrayLostOrGained")
     \cup V(s.isStrips \/ t.nv = 0 \/ t.tris = MapTris(s.tris, m), "TrianglesWithoutDeletedVerticesInOrder")
     \cup V(t.nv = 0 \/ Len(t.weights) # Len(s.weights) \/ t.weights = WeightsAfter(s.weights, m), "SkinWeightsFollowTheirVertices")
+    \* every surviving triangle stays in the partition it was in (when the assignment is at hand on both sides)
+    \cup V((t.nv = 0 \/ s.isStrips \/ Len(s.triParts) = 0 \/ Len(s.triParts) # Len(s.tris) \/ Len(t.triParts) # Len(t.tris)) \/
+           LET K == SelectSeq([k \in 1..Len(s.tris) |-> k], LAMBDA k : \A c \in 1..3 : m[s.tris[k][c] + 1] >= 0)
+               \* (partitions that became empty are removed and the others move down: labels compare by their rank)
+               Rank(q) == [j \in 1..Len(q) |-> Cardinality({x \in ToSet(q) : x < q[j]})]
+           IN  Rank(t.triParts) = Rank([j \in 1..Len(K) |-> s.triParts[K[j]]]), "PartitionLabelsFollowTheirTriangles")
     \* the locked-normal list (ascending) names the same vertices as before, minus the deleted ones
     \cup V((t.nv = 0 \/ Len(s.locked) = 0 \/ ~(\A k \in 1..(Len(s.locked) - 1) : s.locked[k] < s.locked[k + 1]) \/ ~IdxOK(s.locked, s.nv)) \/
            LET K == SelectSeq(s.locked, LAMBDA x : m[x + 1] >= 0) IN t.locked = [j \in 1..Len(K) |-> m[K[j] + 1]], "LockedNormalsFollowTheirVertices")
